@@ -27,6 +27,19 @@ fn try_trace(cfg: &RunConfig, events: &[Event], target: &Violation) -> Option<(V
     }
     let v = relabel(target, o.violation?);
     if same(&v, target) {
+        if target.property == "C09" && target.kind.starts_with("after-upgrade:") {
+            // the attribution to C09 must survive the reduction: the same (reduced) trace without
+            // its upgrades has to be clean, exactly as triage and replay decide it
+            let keep = (v.at_event + 1).min(events.len());
+            let twin_events: Vec<Event> = events[..keep].iter().filter(|e| !matches!(e, Event::Upgrade { .. })).cloned().collect();
+            if twin_events.len() == keep {
+                return None;
+            }
+            let twin = replay_trace(cfg.clone(), twin_events);
+            if twin.violation.is_some() || twin.harness_error.is_some() {
+                return None;
+            }
+        }
         // truncate after the failing event
         let keep = (v.at_event + 1).min(events.len());
         Some((events[..keep].to_vec(), v))
